@@ -991,6 +991,18 @@ def _np_full_like(it, args, kwargs):
     return NDArr(it.ctx, Seq(a.seq.len, lambda j: val, V), kind, "fresh", None)
 
 
+class NpStringsFn:
+    """numpy.strings.<name>: only its identity is modelled (which function a proxy forwards to); calling it is unsupported"""
+    def __init__(self, name):
+        self.name = name
+
+    def pyvc_call(self, it, args, kwargs):
+        raise Unsupported(f"numpy.strings.{self.name} not modelled")
+
+    def __repr__(self):
+        return f"<numpy.strings.{self.name}>"
+
+
 class Vectorized:
     """np.vectorize(f): applies f to every element; the result is a new array of the same length (dtype from the values:
     unknown here)."""
@@ -1019,7 +1031,25 @@ def _np_lexsort(it, args, kwargs):
 
 
 def _np_split(it, args, kwargs):
-    raise Unsupported("np.split")
+    """np.split(a, cuts) for a 1-D array and an increasing array of cut positions within [0, len(a)]: the list of the
+    len(cuts)+1 consecutive pieces a[0:c0], a[c0:c1], ..., a[c_last:] (views).  The precondition on the cuts is an obligation."""
+    a, cuts = as_arr(it, args[0]), as_arr(it, args[1])
+    ctx = it.ctx
+    n, m = zint(a.seq.len), zint(cuts.seq.len)
+    c = lambda t: zint(coerce(it, cuts.seq.at(t), cuts.seq.sort, INT)) if cuts.seq.sort != INT else zint(cuts.seq.at(t))
+    t0 = ctx.fresh("t", INT)
+    ob = ctx.prove("pre:np.split(cut positions are increasing and within the array)",
+                   z3.Implies(z3.And(0 <= t0, t0 < m), z3.And(0 <= c(t0), c(t0) <= n, z3.Implies(t0 + 1 < m, c(t0) <= c(t0 + 1)))), kind="pre")
+    lo = lambda t: z3.If(zint(t) == 0, 0, c(zint(t) - 1))
+    hi = lambda t: z3.If(zint(t) == m, n, c(zint(t)))
+
+    def piece(t):
+        return NDArr(ctx, Seq(conc(hi(t) - lo(t)), lambda j: a.seq.at(lo(t) + j), a.seq.sort), a.kind, a.owner, a.cls, base=None)
+    out = Seq(conc(m + 1), piece, None)
+    out.keep_symbolic = True
+    out.split_bounds = (lo, hi)
+    it.ctx.used_models.add("np.split(a, cuts): consecutive pieces of a between increasing cut positions")
+    return MList(ctx, out)
 
 
 def _np_unique(it, args, kwargs):
@@ -1151,6 +1181,7 @@ def make_np(it):
         "floating": TypeObj("floating"), "integer": TypeObj("integer"), "number": TypeObj("number"),
         "object_": TypeObj("object_"), "str_": TypeObj("str_"),
         "nan": NAN,
+        "strings": ModuleNS("numpy.strings", getter=lambda it_, name: NpStringsFn(name)),
         "random": ModuleNS("np.random", {"choice": ModelFn("np.random.choice", _np_random_choice)}),
     }
     return ModuleNS("numpy", members)
